@@ -306,7 +306,8 @@ def restart_selection_obligations(R, tier):
     """read_ET_data (split_per_it=False): symbolic iteration values and restart ranges"""
     import aurel.reading as Rm
     R.under_contract(Rm.read_ET_data)
-    shapes = [(2, 2), (3, 2)] if tier == 'quick' else [(2, 2), (3, 2), (3, 3)]
+    # (restarts, requested iterations); (2, 3) is the smallest shape in which a request straddles a nested restart
+    shapes = [(2, 2), (3, 2), (2, 3)] if tier == 'quick' else [(2, 2), (3, 2), (2, 3), (3, 3), (2, 4)]
     agg = {}
     npaths = 0
     t0 = time.time()
@@ -397,6 +398,7 @@ def directory_cases(tier):
         # simulation names made of the words the readers look for in file names
         for nm in ('run.file_3.x', 'it_4.rl=1 c=2', 'checkpoint.chkpt'):
             cases.append(dict(layout=layout, cuts=(2, 1, 1), ghost=1, reverse=False, simname=nm))
+        cases.append(dict(layout=layout, cuts=(1, 2, 1), ghost=1 + li % 2, reverse=False, nested=True))
         # a re-run from the same checkpoint that stopped early: restart ranges do not end in increasing order
         cases.append(dict(layout=layout, cuts=(2, 1, 1), ghost=1 + li % 2, reverse=False, nonmono=True))
     return cases
@@ -413,6 +415,11 @@ def run_directory_case(case, seed=0):
         restarts = [(0, [0, 2, 4], 0), (1, [4, 6], 1), (2, [6, 8], 2)]
         latest = {0: 0, 2: 0, 4: 1, 6: 2, 8: 2}
         requests = (([8, 0, 4], ['alpha', 'betaup3'], 0), ([6, 2], ['betax', 'rho0'], 1), ([4], ['gxx'], 0))
+        if case.get('nested'):
+            # a short re-run in the middle of a longer, earlier restart: requests straddling it
+            restarts = [(0, [0, 2, 4, 6, 8, 10], 0), (1, [4, 6], 1)]
+            latest = {0: 0, 2: 0, 4: 1, 6: 1, 8: 0, 10: 0}
+            requests = (([2, 4, 10], ['alpha'], 0), ([0, 6, 8], ['betax', 'rho0'], 1), ([10, 8, 6, 4, 2, 0], ['betaup3'], 0), ([6], ['gxx'], 0))
         if case.get('nonmono'):
             restarts = [(0, [0, 2, 4, 6, 8], 0), (1, [4, 6, 8, 10, 12], 1), (2, [4, 6, 8], 2)]
             latest = {0: 0, 2: 0, 4: 2, 6: 2, 8: 2, 10: 1, 12: 1}
@@ -514,7 +521,7 @@ def checkpoint_obligations(R):
 def native_dir_replay(o=None):
     bad = []
     cases = directory_cases('quick')
-    for case in [c for c in cases if c.get('nonmono') or c.get('single_as_chunk') or c.get('simname')] + cases[:8]:
+    for case in [c for c in cases if c.get('nonmono') or c.get('nested') or c.get('single_as_chunk') or c.get('simname')] + cases[:8]:
         bad += run_directory_case(case)
         if bad:
             break
